@@ -17,6 +17,9 @@ SAVES = [[{"detector.photon.array": ["npy"]}],
          # picture formats listed BEFORE lossless ones
          [{"detector.image.array": ["jpg", "fits", "npy"]}],
          [{"detector.image.array": ["jpg", "npy"]}, {"detector.photon.array": ["npy"]}]]
+# exposure mode only (the probe pipeline of the observation cases generates no charge): the charge bucket, whose
+# content is partly held as positioned clusters, and the pixel bucket
+CHARGE_SAVE = [{"detector.charge.array": ["npy", "fits"]}, {"detector.pixel.array": ["npy"]}]
 
 
 def strip(t):
@@ -113,6 +116,14 @@ def run(ctx):
             cfg["pipe"][1].insert(0, {"name": "ph", "enabled": True, "args": "a", "kind": "set", "b": "photon", "base": 5, "mask": -1})
             cfg["pipe"][6].append({"name": "sg", "enabled": True, "args": "a", "kind": "set", "b": "signal", "base": 9, "mask": -1})
             jobs.append({"mode": mode, "cfg": cfg, "save": SAVES[k % 8], "repeat": 2 + (k % 2), "reuse": k % 2 == 0})
+            if k % 2 == 0:
+                import copy
+                c2 = copy.deepcopy(cfg)
+                c2["pipe"][3] = [{"name": "cha", "enabled": True, "args": "a", "kind": "add", "b": "charge", "base": 7, "mask": -1},
+                                 {"name": "chp", "enabled": True, "args": "a", "kind": "padd", "b": "charge", "base": 3, "mask": -1}]
+                c2["pipe"][4] = [{"name": "pxa", "enabled": True, "args": "a", "kind": "add", "b": "pixel", "base": 11, "mask": -1}]
+                c2["times"] = c2["times"][:2]
+                jobs.append({"mode": mode, "cfg": c2, "save": CHARGE_SAVE, "repeat": 1})
         else:
             np_ = rng.randint(1, 2)
             params = [{"vals": rng.sample([1, 2, 3], rng.randint(2, 3)), "enabled": True,
